@@ -58,6 +58,7 @@ type gen struct {
 	nCmd     int
 	nLabel   int
 	labels   []string
+	hot      []string     // labels written right after a break / end / return / goto
 	gotos    []*model.Cmd // goto/call commands whose target is resolved at the end
 	left     int
 	texts    []string
@@ -300,12 +301,12 @@ func (g *gen) text() model.Arg {
 func (g *gen) moves() model.Arg {
 	r := g.r
 	a := model.Arg{Kind: model.ArgMoves}
-	steps := []string{"walk_up", "walk_down", "face_left", "delay_16", "jump_right"}
+	steps := []string{"walk_up", "walk_down", "face_left", "delay_16", "delay_1", "delay_8", "jump_right"}
 	n := r.Range(0, 3)
 	for i := 0; i < n; i++ {
 		m := model.Move{Name: steps[r.Intn(len(steps))]}
 		if r.P(0.3) {
-			m.Mul = r.Range(1, 3)
+			m.Mul = []int{1, 2, 3, 6, 8}[r.Intn(5)]
 		}
 		a.Moves = append(a.Moves, m)
 	}
@@ -529,7 +530,14 @@ func (g *gen) block(depth int, ctx bctx, brace bool) []*model.Stmt {
 			s.Conds = append(s.Conds, g.expr())
 			s.Bodies = append(s.Bodies, g.block(depth+1, ctx, true))
 			for r.P(c.PElif) && len(s.Conds) < 4 {
-				s.Conds = append(s.Conds, g.expr())
+				if r.P(0.2) {
+					// a sibling condition that differs from an earlier one of the chain in one
+					// detail only (or not at all): anything keyed on a rendering of the condition
+					// must keep them apart
+					s.Conds = append(s.Conds, g.nearCopy(s.Conds[r.Intn(len(s.Conds))]))
+				} else {
+					s.Conds = append(s.Conds, g.expr())
+				}
 				s.Bodies = append(s.Bodies, g.block(depth+1, ctx, true))
 			}
 			if r.P(c.PElse) {
@@ -578,6 +586,11 @@ func (g *gen) block(depth int, ctx bctx, brace bool) []*model.Stmt {
 			if r.P(0.2) {
 				s.Global = r.Range(1, 2)
 			}
+			if len(out) > 0 {
+				if p := out[len(out)-1]; p.K == model.KBreak || p.K == model.KCmd && (p.Cmd.Name == "end" || p.Cmd.Name == "return" || p.Cmd.Name == "goto") {
+					g.hot = append(g.hot, l)
+				}
+			}
 			out = append(out, s)
 		case 7, 8:
 			name := "goto"
@@ -595,6 +608,14 @@ func (g *gen) block(depth int, ctx bctx, brace bool) []*model.Stmt {
 			out = append(out, &model.Stmt{K: model.KBreak})
 			if !r.P(c.PAfterBreak) {
 				return out
+			}
+			if c.WLabel > 0 && r.P(0.5) {
+				// unreachable by fall-through, reachable by goto: a label right after the break
+				g.nLabel++
+				l := fmt.Sprintf("L%d", g.nLabel)
+				g.labels = append(g.labels, l)
+				g.hot = append(g.hot, l)
+				out = append(out, &model.Stmt{K: model.KLabel, Label: l})
 			}
 		case 13:
 			out = append(out, g.poryStmt(depth, ctx))
@@ -673,6 +694,8 @@ func (g *gen) resolveGotos() {
 	for _, c := range g.gotos {
 		if len(targets) == 0 || r.P(g.c.PExternal) {
 			c.Args[0].Toks = []string{fmt.Sprintf("Ext%d", r.Intn(3))}
+		} else if len(g.hot) > 0 && r.P(0.35) {
+			c.Args[0].Toks = []string{g.hot[r.Intn(len(g.hot))]}
 		} else if len(g.labels) > 0 && r.P(0.75) {
 			c.Args[0].Toks = []string{g.labels[r.Intn(len(g.labels))]}
 		} else {
@@ -743,4 +766,96 @@ func (g *gen) poryCase(val string, depth int, ctx bctx) *model.PCase {
 	}
 	c.Body = []*model.Stmt{st}
 	return c
+}
+
+func cloneCmd(c *model.Cmd) *model.Cmd {
+	if c == nil {
+		return nil
+	}
+	d := &model.Cmd{Name: c.Name, Paren: c.Paren}
+	for _, a := range c.Args {
+		b := a
+		b.Toks = append([]string(nil), a.Toks...)
+		b.Moves = append([]model.Move(nil), a.Moves...)
+		d.Args = append(d.Args, b)
+	}
+	return d
+}
+
+func cloneExpr(e *model.Expr) *model.Expr {
+	if e == nil {
+		return nil
+	}
+	d := &model.Expr{Op: e.Op, Parens: e.Parens, L: cloneExpr(e.L), R: cloneExpr(e.R)}
+	if e.Leaf != nil {
+		l := *e.Leaf
+		l.Auto = cloneCmd(e.Leaf.Auto)
+		d.Leaf = &l
+	}
+	return d
+}
+
+func leavesOf(e *model.Expr, out *[]*model.Leaf) {
+	if e == nil {
+		return
+	}
+	if e.Leaf != nil {
+		*out = append(*out, e.Leaf)
+	}
+	leavesOf(e.L, out)
+	leavesOf(e.R, out)
+}
+
+// nearCopy clones a condition and changes at most one detail of one leaf.
+func (g *gen) nearCopy(e *model.Expr) *model.Expr {
+	r := g.r
+	d := cloneExpr(e)
+	var ls []*model.Leaf
+	leavesOf(d, &ls)
+	if len(ls) == 0 || r.P(0.15) {
+		return d
+	}
+	l := ls[r.Intn(len(ls))]
+	switch {
+	case l.Kind == model.LAuto:
+		// same command, another argument
+		for i := range l.Auto.Args {
+			a := &l.Auto.Args[i]
+			if a.Kind == model.ArgPlain && len(a.Toks) == 1 && len(a.Toks[0]) > 1 && a.Toks[0][0] == 'N' {
+				g.nCmd++
+				a.Toks[0] = fmt.Sprintf("N%d", g.nCmd)
+				return d
+			}
+		}
+		if len(l.Auto.Args) == 0 {
+			break
+		}
+		fallthrough
+	case l.Kind == model.LVar && l.Form == model.FOp:
+		if len(l.Val) > 0 && !containsSpace(l.Val) && r.Bool() {
+			l.Strict = !l.Strict
+		} else {
+			l.Op = []string{"==", "!=", "<", "<=", ">", ">="}[r.Intn(6)]
+		}
+	case l.Form == model.FBare:
+		l.Form = model.FNot
+	case l.Form == model.FNot:
+		l.Form = model.FBare
+	default:
+		if l.Op == "==" {
+			l.Op = "!="
+		} else {
+			l.Op = "=="
+		}
+	}
+	return d
+}
+
+func containsSpace(s string) bool {
+	for _, c := range s {
+		if c == ' ' {
+			return true
+		}
+	}
+	return false
 }
